@@ -61,7 +61,7 @@ COMPOSED = [
     {"k": "newton_girard", "max_degree": 3},
 ]
 GRADK = ["rbfgrad", "m52grad", "polygrad", "rbfgradgrad"]
-NPAT = [(5, 4, "diff"), (4, 4, "same"), (4, 4, "eqsize"), (1, 3, "diff"), (1, 1, "same"), (6, 2, "diff"), (4, 4, "near")]
+NPAT = [(5, 4, "diff"), (4, 4, "same"), (4, 4, "eqsize"), (1, 3, "diff"), (1, 1, "same"), (6, 2, "diff"), (4, 4, "near"), (4, 4, "views")]
 BATCH = [([], []), ([2], []), ([2], [2]), ([], [2]), ([3, 2], []), ([3, 2], [3, 2]), ([1, 2], [3, 1])]
 PATHS = ["nograd", "xgrad", "trace"]
 REGIMES = ["random", "small", "large"]
@@ -291,6 +291,16 @@ def _run_case(case, ctx):
     if case["rel"] == "near" and x1.dtype.is_floating_point and spec["k"] != "hamming":
         # a second input set that is ALMOST the first one (another tensor, differences of 1e-9 .. 1e-4): still its own points
         x2 = x1 + 10.0 ** (-9 + 5 * util.rand(g, *x1.shape[:-1], 1)) * util.randn(g, *x1.shape)
+    if case["rel"] == "views":
+        # two different views of ONE tensor that start at the same storage offset and have equal shapes (every other row
+        # vs the first half; for square inputs the matrix vs its transpose): different points all the same
+        big = torch.cat([x1, x2], dim=-2)
+        big = big[..., torch.randperm(big.shape[-2], generator=g), :].contiguous()
+        if n1 == big.shape[-1] and not xb and case["seed"] % 2:
+            sq = big[:n1].contiguous()
+            x1, x2 = sq, sq.transpose(-1, -2)
+        else:
+            x1, x2 = big[..., ::2, :], big[..., :n1, :]
     path = case["path"]
     if spec["k"] in ("hamming", "newton_girard", "index") and path == "xgrad":
         path = "nograd"
